@@ -27,7 +27,14 @@ def run(tier, seed, replay):
         r = random.Random("%s/c04split/%d" % (seed, k))
         if k % 2:
             parts = cfggen.split_files(r, cfg, r.randint(2, 3))
-            sp["files"] = [{"path": "cfg/f%d.yaml" % i, "content": cfggen.to_yaml(p)} for i, p in enumerate(parts)]
+            if k % 4 == 1:
+                # one pattern with a wildcard directory: Glob walks directory by directory (conf, conf-x, conf.d), the documented order is the
+                # byte order of the cleaned paths (conf-x/…, conf.d/…, conf/…)
+                dirs = sorted(["conf", "conf.d", "conf-x"][:len(parts)], key=lambda d: ("cfg/%s/d.yaml" % d).encode())
+                sp["files"] = [{"path": "cfg/%s/d.yaml" % d, "content": cfggen.to_yaml(p)} for d, p in zip(dirs, parts)]
+                sp["patterns"] = ["cfg/*/d.yaml"]
+            else:
+                sp["files"] = [{"path": "cfg/f%d.yaml" % i, "content": cfggen.to_yaml(p)} for i, p in enumerate(parts)]
     if replay:
         rp = json.load(open(replay))["replay"]
         specs = [dict(rp, id="0", dump=True, build_info="bi", keep_out=True)]
